@@ -134,18 +134,18 @@ func checkImplementation(
 			// For &Interface, we need pointer receiver methods
 			// (but value receiver methods are also OK per Go spec:
 			// method set of *T includes methods with receiver T or *T)
-			typeMethods[method.Name] = method
+			typeMethods[methodKey(method.Name, method.ID)] = method
 		} else {
 			// For Interface (no &), we need value receiver methods only
 			if !method.ReceiverIsPointer {
-				typeMethods[method.Name] = method
+				typeMethods[methodKey(method.Name, method.ID)] = method
 			}
 		}
 	}
 
 	// Check each interface method
 	for _, ifaceMethod := range iface.Methods {
-		typeMethod, exists := typeMethods[ifaceMethod.Name]
+		typeMethod, exists := typeMethods[methodKey(ifaceMethod.Name, ifaceMethod.ID)]
 		if !exists {
 			missing = append(missing, ifaceMethod)
 			continue
@@ -158,6 +158,14 @@ func checkImplementation(
 	}
 
 	return missing
+}
+
+// methodKey identifies a method: its package-qualified id when known, else its name
+func methodKey(name string, id string) string {
+	if id != "" {
+		return id
+	}
+	return name
 }
 
 // signaturesMatch checks if type method matches interface method signature
